@@ -10,7 +10,7 @@ open Lean QExPy QExPy.Arr
 
 def unitU : UnitAlg FB Unit := ⟨(), fun _ _ => (), fun _ _ _ _ _ => ()⟩
 
-def kindName : Kind → String
+private def kindName : Kind → String
   | .scalar => "scalar" | .list => "list" | .ndarray => "ndarray" | .marray => "marray"
 
 def getOperand (es : Array (Expr FB)) (j : Json) : R (Operand FB Unit) := do
@@ -35,7 +35,7 @@ def getOperand (es : Array (Expr FB)) (j : Json) : R (Operand FB Unit) := do
     pure (.marray (l.map fun e => (e, ())))
   | k => throw s!"unknown operand kind {k}"
 
-partial def getTree (es : Array (Expr FB)) (j : Json) : R (ATree FB Unit) := do
+private partial def getTree (es : Array (Expr FB)) (j : Json) : R (ATree FB Unit) := do
   let a ← getArr j
   let tag ← getStr a[0]!
   match tag with
